@@ -28,8 +28,11 @@ Import ListNotations.
 Set Implicit Arguments.
 
 Definition loc := nat.
-Definition val := N.
-Definition rd (h : list val) (l : loc) : val := nth l h 0%N.
+(* an ARRAY is a list of cells (N tokens); a location holds one array.  Whole-array writes replace the
+   list, index-wise writes (WriteRetAt) replace one cell of it. *)
+Definition val := list N.
+Definition zero : val := [0; 0]%N.   (* the zero vector: two cells holding token 0 *)
+Definition rd (h : list val) (l : loc) : val := nth l h zero.
 Fixpoint wr (h : list val) (l : loc) (v : val) : list val :=
   match h, l with
   | [], _ => []
@@ -38,6 +41,12 @@ Fixpoint wr (h : list val) (l : loc) (v : val) : list val :=
   end.
 Definition alloc (h : list val) (vs : list val) : list val * list loc :=
   (h ++ vs, seq (length h) (length vs)).
+Fixpoint upd_at (i : nat) (x : N) (a : val) : val :=
+  match a, i with
+  | [], _ => []
+  | _ :: t, 0 => x :: t
+  | y :: t, S i' => y :: upd_at i' x t
+  end.
 Fixpoint wr_list (h : list val) (lv : list (loc * val)) : list val :=
   match lv with [] => h | (l, v) :: t => wr_list (wr h l v) t end.
 
@@ -74,9 +83,11 @@ Inductive op :=
 | Solve (vs : list val) | SaveIter | SetFolder (f : nat) | GetResults (i : nat) | SetIter (i : nat)
 | ResultQ (i k : nat) | WriteRet (k : nat) (v : val) | SetMesh | SaveLoad (f : nat)
 (* python-style negative indices -k, resolved against the CURRENT number of stored iterations *)
-| GetResultsNeg (k : nat) | SetIterNeg (k : nat) | ResultQNeg (j k : nat).
+| GetResultsNeg (k : nat) | SetIterNeg (k : nat) | ResultQNeg (j k : nat)
+(* in-place write by the user of ONE cell (index i) of the k-th array he was handed: arr[i] = x *)
+| WriteRetAt (k i : nat) (x : N).
 
-Definition fit (n : nat) (vs : list val) : list val := firstn n (vs ++ repeat 0%N n).
+Definition fit (n : nat) (vs : list val) : list val := firstn n (vs ++ repeat zero n).
 Definition merge (bs : list bool) (new old : list loc) : list loc :=
   map (fun t : bool * (loc * loc) => if fst t then fst (snd t) else snd (snd t)) (combine bs (combine new old)).
 Definition mask (A : Type) (bs : list bool) (xs : list A) : list (option A) :=
@@ -153,13 +164,18 @@ Definition step (c : config) (o : op) (s : state) : state :=
   | GetResultsNeg k => get_results c (neg_idx k s) s
   | SetIterNeg k => set_iter c (neg_idx k s) s
   | ResultQNeg j k => result_q c (neg_idx j s) k s
+  | WriteRetAt k i x =>
+      match nth_error (handed s) k with
+      | None => s
+      | Some l => mkst (wr (heap s) l (upd_at i x (rd (heap s) l))) (live s) (mesh s) (nmesh s) (store s) (folder s) (disk s) (handed s) (ghost s)
+      end
   | WriteRet k v =>
       match nth_error (handed s) k with
       | None => s
       | Some l => mkst (wr (heap s) l v) (live s) (mesh s) (nmesh s) (store s) (folder s) (disk s) (handed s) (ghost s)
       end
   | SetMesh =>
-      mkst (heap s ++ [0%N]) (repeat (length (heap s)) (nf c)) (nmesh s) (S (nmesh s)) (store s)
+      mkst (heap s ++ [zero]) (repeat (length (heap s)) (nf c)) (nmesh s) (S (nmesh s)) (store s)
            (folder s) (disk s) (handed s) (ghost s)
   | SaveLoad f =>
       mkst (heap s ++ heap s) (map (fun l => l + length (heap s)) (live s)) (mesh s) (nmesh s)
@@ -169,10 +185,15 @@ Definition step (c : config) (o : op) (s : state) : state :=
 Fixpoint run (c : config) (ops : list op) (s : state) : state :=
   match ops with [] => s | o :: t => run c t (step c o s) end.
 
-Definition init (c : config) : state := mkst [0%N] (repeat 0 (nf c)) 0 1 [] 0 [] [] [].
+Definition init (c : config) : state := mkst [zero] (repeat 0 (nf c)) 0 1 [] 0 [] [] [].
 
-Definition is_write (o : op) : bool := match o with WriteRet _ _ => true | _ => false end.
+Definition is_write (o : op) : bool := match o with WriteRet _ _ => true | WriteRetAt _ _ _ => true | _ => false end.
 Definition no_writes (ops : list op) : bool := forallb (fun o => negb (is_write o)) ops.
+
+(* notation for examples: an array whose two cells hold the same token; solves / whole-array writes of such arrays *)
+Definition A (n : N) : val := [n; n].
+Definition Sv (l : list N) : op := Solve (map A l).
+Definition Wr (k : nat) (n : N) : op := WriteRet k (A n).
 
 (* observation of a stored entry BY VALUE (what a reader of iteration i can see) *)
 Definition entry_vals (c : config) (s : state) (e : entry) : option dictv :=
@@ -572,6 +593,15 @@ Proof.
   - intros D j m ls l He Hin [].
 Qed.
 
+(* a partial write IS some whole-array write: the one that stores the array with that cell replaced *)
+Theorem partial_write_is_some_whole_write : forall c s k i x,
+  step c (WriteRetAt k i x) s = step c (WriteRet k (upd_at i x (rd (heap s) (nth k (handed s) 0)))) s.
+Proof.
+  intros c s k i x. destruct (nth_error (handed s) k) as [l|] eqn:E.
+  - pose proof (@nth_error_nth _ (handed s) k l 0 E) as Q. rewrite Q. simpl. rewrite E. reflexivity.
+  - simpl. rewrite E. reflexivity.
+Qed.
+
 Theorem inv_step : forall c o s, cfg_ok c -> (deep_read c = true \/ is_write o = false) ->
   inv c s -> inv c (step c o s).
 Proof.
@@ -588,6 +618,7 @@ Proof.
   - apply (inv_getresults (neg_idx k s) OK I).
   - apply (inv_setiter (neg_idx k s) OK I).
   - apply (inv_resultq (neg_idx j s) k OK I).
+  - rewrite partial_write_is_some_whole_write. destruct W as [D|W]; [apply inv_write; auto|discriminate].
 Qed.
 
 Theorem inv_run : forall c ops s, cfg_ok c -> (deep_read c = true \/ no_writes ops = true) ->
@@ -639,9 +670,9 @@ Qed.
 
 Example restore_exact_nonvacuous :
   cfg_ok (cfg_demo false) /\
-  no_writes [Solve [5;6]; SaveIter; SetFolder 3; Solve [7;8]; SaveIter; SetMesh; GetResults 1]%N = true /\
-  1 < length (store (run (cfg_demo false) [Solve [5;6]; SaveIter; SetFolder 3; Solve [7;8]; SaveIter; SetMesh; GetResults 1]%N (init (cfg_demo false)))) /\
-  vals (set_iter (cfg_demo false) 0 (run (cfg_demo false) [Solve [5;6]; SaveIter; SetFolder 3; Solve [7;8]; SaveIter; SetMesh; GetResults 1]%N (init (cfg_demo false)))) = [5;6]%N.
+  no_writes [Sv [5;6]; SaveIter; SetFolder 3; Sv [7;8]; SaveIter; SetMesh; GetResults 1]%N = true /\
+  1 < length (store (run (cfg_demo false) [Sv [5;6]; SaveIter; SetFolder 3; Sv [7;8]; SaveIter; SetMesh; GetResults 1]%N (init (cfg_demo false)))) /\
+  vals (set_iter (cfg_demo false) 0 (run (cfg_demo false) [Sv [5;6]; SaveIter; SetFolder 3; Sv [7;8]; SaveIter; SetMesh; GetResults 1]%N (init (cfg_demo false)))) = map A [5;6]%N.
 Proof. split; [apply cfg_demo_ok|]. vm_compute. auto. Qed.
 
 (* Result(name, iter=i): Set_Iter i, then a copying getter: the value handed out is ghost i's. *)
@@ -660,14 +691,14 @@ Theorem result_exact : forall c ops i k, cfg_ok c -> (deep_read c = true \/ no_w
   i < length (store (run c ops (init c))) -> nth k (stored c) false = true ->
   exists g, nth_error (ghost (run c ops (init c))) i = Some g /\
     map (rd (heap (step c (ResultQ i k) (run c ops (init c))))) (handed (step c (ResultQ i k) (run c ops (init c))))
-    = [nth k (snd g) 0%N].
+    = [nth k (snd g) zero].
 Proof.
   intros c ops i k OK W Hi Hk. destruct (restore_exact ops OK W Hi) as (g & Hg & _ & Hm).
   exists g. split; auto. simpl. unfold result_q. simpl. set (s1 := set_iter c i (run c ops (init c))) in *.
   unfold rd at 1. rewrite app_nth2 by lia. rewrite Nat.sub_diag. simpl. f_equal.
-  apply (@mask_nth val (stored c) (vals s1) (snd g) k 0%N) in Hm; auto. rewrite <- Hm. unfold vals.
+  apply (@mask_nth val (stored c) (vals s1) (snd g) k zero) in Hm; auto. rewrite <- Hm. unfold vals.
   destruct (Nat.lt_ge_cases k (length (live s1))) as [L|L].
-  - rewrite (nth_indep _ 0%N (rd (heap s1) 0)) by (rewrite map_length; auto). rewrite map_nth. reflexivity.
+  - rewrite (nth_indep _ zero (rd (heap s1) 0)) by (rewrite map_length; auto). rewrite map_nth. reflexivity.
   - exfalso. assert (J : inv c s1) by (apply inv_setiter; auto; apply inv_run; auto; apply inv_init).
     rewrite (i_nlive J) in L. destruct OK as (_ & _ & _ & Hl). rewrite <- Hl in L.
     rewrite nth_overflow in Hk by auto. discriminate.
@@ -726,15 +757,15 @@ Proof.
 Qed.
 
 Example no_alias_forward_nonvacuous :
-  store_vals (cfg_demo false) (reach (cfg_demo false) [Solve [5;6]; SaveIter; SetIter 0; Solve [1;2]]%N)
-  = [Some (0, [5;6]%N)].
+  store_vals (cfg_demo false) (reach (cfg_demo false) [Sv [5;6]; SaveIter; SetIter 0; Sv [1;2]]%N)
+  = [Some (0, map A [5;6]%N)].
 Proof. vm_compute. reflexivity. Qed.
 
 (* with an in-place solver the same trace corrupts the store: the flag matters *)
 Example in_place_solve_breaks_forward :
   store_vals (mkcfg 2 [true;true] true true false false true)
-    (reach (mkcfg 2 [true;true] true true false false true) [Solve [5;6]; SaveIter; SetIter 0; Solve [1;2]]%N)
-  = [Some (0, [1;2]%N)].
+    (reach (mkcfg 2 [true;true] true true false false true) [Sv [5;6]; SaveIter; SetIter 0; Sv [1;2]]%N)
+  = [Some (0, map A [1;2]%N)].
 Proof. vm_compute. reflexivity. Qed.
 
 (* ---------------------------------------------------------------- no_alias_backward *)
@@ -751,9 +782,9 @@ Proof.
 Qed.
 
 Example no_alias_backward_nonvacuous :
-  let ops := [Solve [5;6]; SaveIter; GetResults 0; WriteRet 0 9; SetIter 0; WriteRet 1 9]%N in
+  let ops := [Sv [5;6]; SaveIter; GetResults 0; Wr 0 9; SetIter 0; Wr 1 9]%N in
   handed (reach (cfg_demo true) ops) <> [] /\
-  store_vals (cfg_demo true) (reach (cfg_demo true) ops) = [Some (0, [5;6]%N)].
+  store_vals (cfg_demo true) (reach (cfg_demo true) ops) = [Some (0, map A [5;6]%N)].
 Proof. vm_compute. split; [discriminate|reflexivity]. Qed.
 
 (* TRUE PART 2: entries that were written to disk are immune whatever the read discipline. *)
@@ -765,22 +796,22 @@ Proof. intros. simpl. destruct (nth_error (handed s) k); reflexivity. Qed.
    iteration 0 differs from the first although only the user's copy was written. *)
 Example alias_trace :
   let c := cfg_demo false in
-  store_vals c (reach c [Solve [5;6]; SaveIter; GetResults 0]%N) = [Some (0, [5;6]%N)] /\
-  store_vals c (reach c [Solve [5;6]; SaveIter; GetResults 0; WriteRet 0 9; GetResults 0]%N) = [Some (0, [9;6]%N)].
+  store_vals c (reach c [Sv [5;6]; SaveIter; GetResults 0]%N) = [Some (0, map A [5;6]%N)] /\
+  store_vals c (reach c [Sv [5;6]; SaveIter; GetResults 0; Wr 0 9; GetResults 0]%N) = [Some (0, map A [9;6]%N)].
 Proof. vm_compute. split; reflexivity. Qed.
 
 (* Set_Iter hands out results whose arrays are both the stored and the live ones *)
 Example alias_trace_set_iter :
   let c := cfg_demo false in
-  let s := reach c [Solve [5;6]; SaveIter; Solve [7;8]; SetIter 0; WriteRet 1 9]%N in
-  store_vals c s = [Some (0, [5;9]%N)] /\ vals s = [5;9]%N.
+  let s := reach c [Sv [5;6]; SaveIter; Sv [7;8]; SetIter 0; Wr 1 9]%N in
+  store_vals c s = [Some (0, map A [5;9]%N)] /\ vals s = map A [5;9]%N.
 Proof. vm_compute. split; reflexivity. Qed.
 
 (* a field that Save_Iter does not store (phase-field history) is not restored *)
 Example unsaved_field_not_restored :
   let c := mkcfg 3 [true;true;false] true true false true true in
-  let s := reach c [Solve [1;2;3]; SaveIter; Solve [4;5;6]; SaveIter; SetIter 0]%N in
-  ghost s = [(0, [1;2;3]%N); (0, [4;5;6]%N)] /\ vals s = [1;2;6]%N.
+  let s := reach c [Sv [1;2;3]; SaveIter; Sv [4;5;6]; SaveIter; SetIter 0]%N in
+  ghost s = [(0, map A [1;2;3]%N); (0, map A [4;5;6]%N)] /\ vals s = map A [1;2;6]%N.
 Proof. vm_compute. split; reflexivity. Qed.
 
 (* ---------------------------------------------------------------- folder_pinning *)
@@ -792,14 +823,14 @@ Qed.
 
 Example folder_pinning_nonvacuous :
   let c := cfg_demo false in
-  let s := reach c [SetFolder 1; Solve [5;6]; SaveIter; SetFolder 2; Solve [7;8]; SaveIter; SetFolder 0; Solve [1;1]; SaveIter; SetFolder 2]%N in
-  store_vals c s = [Some (0, [5;6]%N); Some (0, [7;8]%N); Some (0, [1;1]%N)] /\
+  let s := reach c [SetFolder 1; Sv [5;6]; SaveIter; SetFolder 2; Sv [7;8]; SaveIter; SetFolder 0; Sv [1;1]; SaveIter; SetFolder 2]%N in
+  store_vals c s = [Some (0, map A [5;6]%N); Some (0, map A [7;8]%N); Some (0, map A [1;1]%N)] /\
   store s = [OnDisk (1, 0); OnDisk (2, 1); InMem 0 [7; 8]].
 Proof. vm_compute. split; reflexivity. Qed.
 
 Example unpinned_folder_redirects :
   let c := mkcfg 2 [true;true] true true false true false in
-  store_vals c (reach c [SetFolder 1; Solve [5;6]; SaveIter; SetFolder 2]%N) = [None].
+  store_vals c (reach c [SetFolder 1; Sv [5;6]; SaveIter; SetFolder 2]%N) = [None].
 Proof. vm_compute. reflexivity. Qed.
 
 (* ---------------------------------------------------------------- save_load_roundtrip *)
@@ -819,8 +850,8 @@ Qed.
 (* and the loaded object keeps restoring exactly: SaveLoad is one of the ops of restore_exact *)
 Example save_load_then_restore :
   let c := cfg_demo false in
-  vals (reach c [Solve [5;6]; SaveIter; SetFolder 4; Solve [7;8]; SaveIter; SaveLoad 4; Solve [0;0]; SetIter 0]%N) = [5;6]%N /\
-  vals (reach c [Solve [5;6]; SaveIter; SetFolder 4; Solve [7;8]; SaveIter; SaveLoad 4; Solve [0;0]; SetIter 1]%N) = [7;8]%N.
+  vals (reach c [Sv [5;6]; SaveIter; SetFolder 4; Sv [7;8]; SaveIter; SaveLoad 4; Sv [0;0]; SetIter 0]%N) = map A [5;6]%N /\
+  vals (reach c [Sv [5;6]; SaveIter; SetFolder 4; Sv [7;8]; SaveIter; SaveLoad 4; Sv [0;0]; SetIter 1]%N) = map A [7;8]%N.
 Proof. vm_compute. split; reflexivity. Qed.
 
 Print Assumptions restore_exact.
@@ -862,8 +893,8 @@ Qed.
 
 Example restore_exact_neg_nonvacuous :
   let c := cfg_demo false in
-  vals (reach c [SetFolder 1; Solve [5;6]; SaveIter; SetIterNeg 1; Solve [7;8]; SaveIter; SetIterNeg 1]%N) = [7;8]%N /\
-  vals (reach c [SetFolder 1; Solve [5;6]; SaveIter; SetIterNeg 1; Solve [7;8]; SaveIter; SetIterNeg 2]%N) = [5;6]%N.
+  vals (reach c [SetFolder 1; Sv [5;6]; SaveIter; SetIterNeg 1; Sv [7;8]; SaveIter; SetIterNeg 1]%N) = map A [7;8]%N /\
+  vals (reach c [SetFolder 1; Sv [5;6]; SaveIter; SetIterNeg 1; Sv [7;8]; SaveIter; SetIterNeg 2]%N) = map A [5;6]%N.
 Proof. vm_compute. split; reflexivity. Qed.
 Print Assumptions neg_ops_resolve_now.
 Print Assumptions restore_exact_neg.
@@ -897,10 +928,86 @@ Qed.
 
 Example second_writer_reads_its_own :
   let c := cfg_demo true in
-  let sA := reach c [SetFolder 1; Solve [5;6]; SaveIter; GetResults 0]%N in
+  let sA := reach c [SetFolder 1; Sv [5;6]; SaveIter; GetResults 0]%N in
   (* a second simulation starts from scratch on the SAME disk and the same folder *)
-  let sB := run c [SetFolder 1; Solve [7;8]; SaveIter; SetIter 0]%N
-              (mkst [0%N] (repeat 0 (nf c)) 0 1 [] 0 (disk sA) [] []) in
-  vals sB = [7;8]%N /\ store_vals c sB = [Some (0, [7;8]%N)].
+  let sB := run c [SetFolder 1; Sv [7;8]; SaveIter; SetIter 0]%N
+              (mkst [zero] (repeat 0 (nf c)) 0 1 [] 0 (disk sA) [] []) in
+  vals sB = map A [7;8]%N /\ store_vals c sB = [Some (0, map A [7;8]%N)].
 Proof. vm_compute. split; reflexivity. Qed.
 Print Assumptions disk_read_after_write.
+
+(* ---------------------------------------------------------------- index-wise (partial) writes *)
+Lemma length_upd_at : forall i x a, length (upd_at i x a) = length a.
+Proof. intros i x a. revert i. induction a; destruct i; simpl; auto. Qed.
+Lemma nth_upd_at_same : forall i x a, i < length a -> nth i (upd_at i x a) 0%N = x.
+Proof. intros i x a. revert i. induction a; intros i H; simpl in *; [lia|]. destruct i; simpl; auto. apply IHa. lia. Qed.
+Lemma nth_upd_at_other : forall i j x a, i <> j -> nth j (upd_at i x a) 0%N = nth j a 0%N.
+Proof.
+  intros i j x a. revert i j. induction a; intros i j H; simpl; [destruct i; reflexivity|].
+  destruct i, j; simpl; auto; try lia.
+Qed.
+
+(* writing into anything the user was handed, whole array or one cell, never reaches the store when
+   Get_results deep-copies *)
+Theorem no_alias_backward_at : forall c ops k i x, cfg_ok c -> deep_read c = true ->
+  store_vals c (step c (WriteRetAt k i x) (reach c ops)) = store_vals c (reach c ops).
+Proof. intros. rewrite partial_write_is_some_whole_write. apply no_alias_backward; auto. Qed.
+
+Theorem no_alias_backward_disk_at : forall c s k i x p,
+  entry_vals c (step c (WriteRetAt k i x) s) (OnDisk p) = entry_vals c s (OnDisk p).
+Proof. intros. rewrite partial_write_is_some_whole_write. apply no_alias_backward_disk. Qed.
+
+(* FRAME of a partial write arr[i] = x into the array at location l: every component of the state other
+   than the heap is untouched; every OTHER location reads the same; at l every OTHER index reads the same,
+   the length is kept and index i (when in range) reads x. *)
+Theorem write_at_frame : forall c s k i x l, nth_error (handed s) k = Some l -> l < length (heap s) ->
+  let s' := step c (WriteRetAt k i x) s in
+  live s' = live s /\ mesh s' = mesh s /\ store s' = store s /\ disk s' = disk s /\ folder s' = folder s /\
+  handed s' = handed s /\ ghost s' = ghost s /\ length (heap s') = length (heap s) /\
+  (forall l', l' <> l -> rd (heap s') l' = rd (heap s) l') /\
+  length (rd (heap s') l) = length (rd (heap s) l) /\
+  (forall j, j <> i -> nth j (rd (heap s') l) 0%N = nth j (rd (heap s) l) 0%N) /\
+  (i < length (rd (heap s) l) -> nth i (rd (heap s') l) 0%N = x).
+Proof.
+  intros c s k i x l E L. simpl. rewrite E. simpl.
+  repeat (split; [reflexivity|]). split; [apply length_wr|]. split.
+  - intros l' H. apply rd_wr_other. auto.
+  - rewrite rd_wr_same by auto. split; [apply length_upd_at|]. split.
+    + intros j H. apply nth_upd_at_other. auto.
+    + apply nth_upd_at_same.
+Qed.
+
+(* hence: a partial write can change a stored (in-memory) iteration or a live field ONLY where it holds
+   the very array that was written, and there only at index i: arrays after = arrays before with cell i
+   replaced at the aliased locations. *)
+Theorem partial_write_breaks_only_aliased_index : forall c s k i x l ls,
+  nth_error (handed s) k = Some l -> l < length (heap s) ->
+  map (rd (heap (step c (WriteRetAt k i x) s))) ls =
+  map (fun l0 => if l0 =? l then upd_at i x (rd (heap s) l0) else rd (heap s) l0) ls.
+Proof.
+  intros c s k i x l ls E L. simpl. rewrite E. simpl. apply map_ext. intros l0.
+  destruct (l0 =? l) eqn:Q.
+  - apply Nat.eqb_eq in Q. subst. apply rd_wr_same; auto.
+  - apply Nat.eqb_neq in Q. apply rd_wr_other. auto.
+Qed.
+
+Corollary partial_write_spares_unaliased : forall c s k i x l ls,
+  nth_error (handed s) k = Some l -> l < length (heap s) -> ~ In l ls ->
+  map (rd (heap (step c (WriteRetAt k i x) s))) ls = map (rd (heap s)) ls.
+Proof.
+  intros c s k i x l ls E L N. rewrite (@partial_write_breaks_only_aliased_index c s k i x l ls E L).
+  apply map_ext_in. intros l0 H. destruct (l0 =? l) eqn:Q; auto. apply Nat.eqb_eq in Q. subst. tauto.
+Qed.
+
+(* the shallow `entry.copy()`: ONE cell of the stored iteration changes, the rest of it does not *)
+Example alias_trace_at :
+  let c := cfg_demo false in
+  store_vals c (reach c [Sv [5;6]; SaveIter; GetResults 0; WriteRetAt 0 1 9; GetResults 0]%N)
+  = [Some (0, [[5;9]; [6;6]]%N)] /\
+  store_vals (cfg_demo true) (reach (cfg_demo true) [Sv [5;6]; SaveIter; GetResults 0; WriteRetAt 0 1 9; GetResults 0]%N)
+  = [Some (0, [[5;5]; [6;6]]%N)].
+Proof. vm_compute. split; reflexivity. Qed.
+Print Assumptions partial_write_is_some_whole_write.
+Print Assumptions no_alias_backward_at.
+Print Assumptions write_at_frame.
+Print Assumptions partial_write_breaks_only_aliased_index.
